@@ -7,8 +7,22 @@ TRUSTED = [
     "specification: G1 = Spec/Curve.lean, G2 = Spec/CurveX.lean over Fp2, GT = generic tower spec for Fp12 (Spec/Tower.lean: schoolbook polynomial "
     "arithmetic modulo the tower's defining polynomials); membership is decided by definition (on the curve, not the identity, r*P = O; a != 1, "
     "a^r = 1), exponentiation by square-and-multiply in the specification; all constants are read from the running library (pc_param) and checked",
-    "class C: every g1_/g2_ multiplication and gt_ exponentiation variant is compared with the specification per line (the loops shared with "
-    "ep_mul_* are covered by the abstract-group theorems of C03; the cyclotomic / GLS / Frobenius-based recodings are not modelled)",
+    "class A (Model/PcValid.lean executed by Driver/C12V.lean on every pcv line, model column): the decision logic of g1_is_valid / g2_is_valid / "
+    "gt_is_valid for embedding degree 12 — identity / zero exits, cofactor-1 shortcut, EP_B12 and EP_BN endomorphism / Frobenius relations, B12_383 "
+    "shortcut, default order check, fp12_test_cyc — with the constants the running library reports (h1, beta of ep_psi, ep2_frb constants, sparse "
+    "form and sign of the parameter, EP_ENDOM compiled in or not). Inside the model g*_mul_any, the group law, ep2_frb / fp12_frb and "
+    "fp12_exp_cyc_sps are evaluated by the specification arithmetic resp. Model/PpExp (those routines are class A in C03 / C11 / C04 / C10)",
+    "class A (dispatch): g1_mul / g2_mul (one-digit path with negation vs. reduction mod n and ep_mul / ep2_mul), g*_mul_gen (reduction mod n), "
+    "_any, _dig, _fix, _sim, _sim_gen and g1_mul_sec are executed through the models of the routine the macro of include/relic_pc.h expands to "
+    "(Driver/C03.modelMul / modelSim, Driver/C11.modelMul / modelSim; needs the ep_param / ep2_param context lines of the same curve, otherwise "
+    "the line is tagged classC). An identity base of the _fix variant is the recorded finding F33 and is left to the specification column",
+    "class C (specification column only): g2_mul_sec (ep2_mul_lwreg is not modelled), every gt_exp variant (gt_exp, _sec, _dig, _gen, _sim: "
+    "gt_exp_gls_naf / gt_exp_reg_gls and the cyclotomic digit exponentiation are not modelled)",
+    "theorems (Lemmas/PcValid.lean): cofactor-1 test, B12 G1 test and B12 G2 test accept exactly the non-zero elements killed by r over an "
+    "abstract commutative group with endomorphism, under explicit hypotheses (characteristic equation of psi on the group, eigenvalue on the "
+    "r-torsion, r = z^4 - z^2 + 1 resp. gcd(z^2 - t z + p, group order) | r); BN G2: reduction to the coded relation and completeness only; B12 GT test (fp12_test_cyc and a^p = a^z) over an abstract commutative "
+    "group with Frobenius. NOT proved: soundness of the BN G2 relation, the BN GT relation (Dai et al.); the hypotheses are not re-checked numerically "
+    "on the reported constants — the per-line specification column (definition: on the curve, killed by r) is what judges those",
     "theorems (Props/C12.lean): the membership predicate 'a^r = 1' already implies membership in the cyclotomic subgroup (unique subgroup of order "
     "r in a cyclic group), so the specification predicate equals the property's predicate; exponentiation by k depends on k mod r only",
 ]
